@@ -295,9 +295,9 @@ def open_path_facts(mod):
     args = [a.arg for a in node.args.args]
     if args[:2] != ["path", "mode"]:
         raise Unsupported("open_path signature %r" % args)
-    outvar = binvar = None
+    outvar = binvar = stdiovar = None
     chain = None
-    fallback = None
+    fallback = None         # (applies to regular files, applies to stdin)
     seen_return = False
     for s in body:
         d = ast.dump(s)
@@ -316,6 +316,7 @@ def open_path_facts(mod):
                 and _is_name(s.value.left, "path") and len(s.value.ops) == 1 and isinstance(s.value.ops[0], ast.In) \
                 and isinstance(s.value.comparators[0], (ast.Tuple, ast.List, ast.Set)) \
                 and all(isinstance(x, ast.Constant) and x.value in (None, "", "-") for x in s.value.comparators[0].elts):
+            stdiovar = s.targets[0].id
             continue
         if isinstance(s, ast.If):
             t = s.test
@@ -359,7 +360,7 @@ def open_path_facts(mod):
             # if not fp: ...
             if isinstance(t, ast.UnaryOp) and isinstance(t.op, ast.Not) and _is_name(t.operand, "fp") and not s.orelse \
                     and chain is not None and fallback is None:
-                fallback = False
+                fallback = (False, False)
                 calls = []
                 for sub in ast.walk(s):
                     if isinstance(sub, ast.If):
@@ -371,8 +372,18 @@ def open_path_facts(mod):
                     raise Unsupported("%s: unrecognised use of open_stream in the fall-back" % _where(fn, s))
                 if calls:
                     cond, asg = calls[0]
-                    if cond not in s.body or s.body[-1] is not cond:
-                        raise Unsupported("%s: the open_stream fall-back is not the last step of `if not fp`" % _where(fn, cond))
+                    # where does it sit?  last step of `if not fp` (files AND stdin), or last step of one arm of
+                    # `if <is_stdio>: ... else: ...` (only that kind of source)
+                    if cond in s.body and s.body[-1] is cond:
+                        where = (True, True)
+                    else:
+                        split = [x for x in s.body if isinstance(x, ast.If) and stdiovar and _is_name(x.test, stdiovar)]
+                        if len(split) == 1 and split[0].body and split[0].body[-1] is cond:
+                            where = (False, True)
+                        elif len(split) == 1 and split[0].orelse and split[0].orelse[-1] is cond:
+                            where = (True, False)
+                        else:
+                            raise Unsupported("%s: the open_stream fall-back is not the last step of `if not fp` or of one of its arms" % _where(fn, cond))
                     want = {ast.dump(ast.parse("not %s" % outvar, mode="eval").body)}
                     if binvar:
                         want.add(ast.dump(ast.Name(binvar, ast.Load())))
@@ -383,7 +394,7 @@ def open_path_facts(mod):
                     if not (_is_name(asg.targets[0], "fp") and len(asg.value.args) == 2 and _is_name(asg.value.args[0], "fp")
                             and _is_name(asg.value.args[1], "mode")):
                         raise Unsupported("%s: open_stream fall-back call" % _where(fn, asg))
-                    fallback = True
+                    fallback = where
                 continue
         if _is_return_name(s, "fp") and s is body[-1]:
             seen_return = True
@@ -520,7 +531,8 @@ def gen_detect():
     out += "Definition stream_header_frame : bytes := %s.\n\n" % cbytes(frame)
     out += "Definition the_facts : facts :=\n  {| f_sniff_chain := sniff_chain; f_sniff_peek := %s; f_writer_passthrough := %s;\n" % (
         cnat(os_["peek"]), cbool(os_["passthrough"]))
-    out += "     f_ext_chain := ext_chain; f_path_fallback_sniffs := %s;\n" % cbool(op_["fallback"])
+    out += "     f_ext_chain := ext_chain; f_path_fallback_sniffs := %s; f_stdin_fallback_sniffs := %s;\n" % (
+        cbool(op_["fallback"][0]), cbool(op_["fallback"][1]))
     out += "     f_cont_chain := cont_chain; f_cont_peek := %s;\n" % cnat(fa_["peek"])
     out += "     f_ext_to_adapter := ext_to_adapter; f_default_adapter := %s;\n" % cbytes(default.encode())
     out += "     f_rs_magic := RECORDSTREAM_MAGIC; f_header_frame := stream_header_frame; f_env := has_flags |}.\n"
